@@ -217,3 +217,23 @@ prop("C03",
                 "as observations here (C17 judges races).",
      technique="runtime monitoring under network fault injection (simulated network, virtual time) with online message oracle, offline wire-log checks, race detector",
      assumptions=["go1.26 testing/synctest virtual time"])
+
+prop("C15",
+     level="exploration",
+     parts=[{"engine": "chan", "race": True}],
+     floor={"quick": 100, "thorough": 2000},
+     child_timeout={"quick": 900, "thorough": 3000},
+     rule="Histories of 12-36 steps on one live session, in both roles (server following a roaming client; client following a "
+          "server whose address moves): genuine packet from the current address, from a new address (roaming), genuine packet "
+          "first delivered through another address, forged packet with the live session id (random or next counter) from a third "
+          "address, bit-flipped copy of a genuine packet from a third address delivered before the original, exact replay from a "
+          "third address, old replay, replay older than the 448-packet window, forged control/close packet. Steps are separated "
+          "by synctest quiescence. After every step the following endpoint writes one message; oracle: its destination on the "
+          "wire (and the white-box remoteAddr) equals the source of the latest genuine, first-delivered packet. Non-trivial = a "
+          "history that ran to the end with every step judged; distinct by (role, step sequence).",
+     level_text="Exploration of seeded roaming/abuse histories against the real transport on a simulated wire in virtual time, "
+                "with a wire-log oracle whose ground truth (which delivery was genuine and fresh) is known by construction.",
+     level_note="A genuine packet that the adversary delays and delivers for the first time from its own address is authentic "
+                "and fresh: the property allows the move, so does the oracle.",
+     technique="runtime monitoring under address-rewriting fault injection (simulated network, virtual time), wire-log oracle",
+     assumptions=["go1.26 testing/synctest virtual time"])
